@@ -180,6 +180,7 @@ func scPrice(ps ParamSet, p1pricing, p2pricing string, tmpls []Template, o Alpha
 // S-BIND
 
 var tSlash = Template{Name: "slash", Consumer: "C1", Service: "a", Providers: []string{"P1"}, Cap: 25, Timeout: 1}
+var tSlash3 = Template{Name: "slash3", Consumer: "C1", Service: "a", Providers: []string{"P1"}, Cap: 25, Timeout: 3}
 var tSlash2 = Template{Name: "slash2", Consumer: "C1", Service: "a", Providers: []string{"P1", "P2"}, Cap: 25, Timeout: 1, Repeated: true, Freq: 1, Total: 2}
 
 func bindOpsFull() []Action {
@@ -188,6 +189,7 @@ func bindOpsFull() []Action {
 		actBind("a", "P1", "O1", 10, "p1", 1),
 		actBind("a", "P1", "O1", 30, "p20", 1),
 		actBind("a", "P1", "O1", 40, "p20", 1),
+		actBind("a", "P1", "O1", 30, "p20t", 1), // below base price x multiple, above discounted price x multiple
 		actBind("a", "P2", "O2", 10, "p5", 1),
 		actBind("a", "P1", "O2", 10, "p1", 1), // provider already owned by O1 once bound
 		actUpdate("a", "P1", "O1", 0, "p20", 0),
@@ -254,6 +256,7 @@ var (
 	tPoorOne = Template{Name: "poorone", Consumer: "C2", Service: "a", Providers: []string{"P1", "P2"}, Cap: 5, Timeout: 1}
 	tRep1    = Template{Name: "rep1", Consumer: "C1", Service: "a", Providers: []string{"P2"}, Cap: 5, Timeout: 1, Repeated: true, Freq: 1, Total: 1}
 	tF3      = Template{Name: "f3", Consumer: "C1", Service: "a", Providers: []string{"P2"}, Cap: 5, Timeout: 1, Repeated: true, Freq: 3, Total: -1}
+	tOneTot  = Template{Name: "onetot", Consumer: "C1", Service: "a", Providers: []string{"P2"}, Cap: 5, Timeout: 1, Repeated: false, Freq: 0, Total: 3}
 	tHuge    = Template{Name: "huge", Consumer: "C1", Service: "a", Providers: []string{"P2"}, Cap: 5, Timeout: 1, Repeated: true, Freq: 1 << 63, Total: -1}
 	tBig     = Template{Name: "bigf", Consumer: "C1", Service: "a", Providers: []string{"P2"}, Cap: 5, Timeout: 1, Repeated: true, Freq: 1 << 62, Total: -1}
 	tMax     = Template{Name: "maxf", Consumer: "C1", Service: "a", Providers: []string{"P2"}, Cap: 5, Timeout: 1, Repeated: true, Freq: 1<<63 - 1, Total: -1}
@@ -353,4 +356,16 @@ func scMsvc(ps ParamSet, depth, blocks, msgs int) *Scenario {
 			actBind("ms", "P1", "O1", 10, "p1", 1), actBind("a", "P1", "O1", 10, "p1", 1), actBind("ms", "MSP", "O1", 10, "p1", 1)}}),
 		Depth: depth, MaxBlocks: blocks, MaxMsgs: msgs,
 	}
+}
+
+// scFeesRefund: S-FEES with P1's binding disabled long enough to be refundable while its first request is pending.
+func scFeesRefund(ps ParamSet, depth, blocks, msgs int) *Scenario {
+	sc := scFees(ps, false, depth, blocks, msgs)
+	sc.Name = "S-FEES(refund)"
+	sc.Setup = append(sc.Setup, actDisable("a", "P1", "O1"), actE(), actE())
+	base := sc.Alpha
+	sc.Alpha = func(sc *Scenario, v *View) []Action {
+		return append(base(sc, v), actRefund("a", "P1", "O1"), actEnable("a", "P1", "O1", 10))
+	}
+	return sc
 }
